@@ -101,6 +101,38 @@ fn ref_enet(x: &Array2<f64>, y: &[f64], l1: f64, l2: f64, icpt: bool) -> (Vec<f6
     (w, b)
 }
 
+/// "iteration budgets large enough to converge", made measurable without the solver under test: the number of
+/// sweeps an independent cyclic coordinate descent (started at 0, same coordinate order, no skip rules, f64)
+/// needs until its objective is within `target` of the optimum `pstar`; `None` if more than `cap`.
+fn ref_sweeps_enet(x: &Array2<f64>, y: &[f64], l1: f64, l2: f64, pstar: f64, target: f64, cap: u32) -> Option<u32> {
+    let (n, p) = x.dim();
+    let cols: Vec<Vec<f64>> = (0..p).map(|j| col(x, j)).collect();
+    let nrm: Vec<f64> = cols.iter().map(|c| dot(c, c)).collect();
+    let mut r: Vec<f64> = y.to_vec();
+    let mut w = vec![0.0; p];
+    for k in 1..=cap {
+        for j in 0..p {
+            if nrm[j] == 0.0 {
+                continue;
+            }
+            let old = w[j];
+            let tmp = dot(&cols[j], &r) + nrm[j] * old;
+            let new = tmp.signum() * (tmp.abs() - l1).max(0.0) / (nrm[j] + l2);
+            if new != old {
+                for i in 0..n {
+                    r[i] -= (new - old) * cols[j][i];
+                }
+                w[j] = new;
+            }
+        }
+        let pk = 0.5 * dot(&r, &r) + l1 * w.iter().map(|v| v.abs()).sum::<f64>() + 0.5 * l2 * dot(&w, &w);
+        if pk - pstar <= target {
+            return Some(k);
+        }
+    }
+    None
+}
+
 pub(crate) struct EnetCase {
     pub x: Array2<f64>,
     pub y: Array1<f64>,
@@ -209,6 +241,22 @@ pub(crate) fn oracle_enet(ctx: &mut Ctx, em_counts: &mut Vec<String>, c: &EnetCa
             break;
         }
     }
+    // (3b) "a point that satisfies the optimality conditions up to the stated tolerance ... all iteration budgets
+    // large enough to converge": whenever the budget is ten times what an independent cyclic descent needs to
+    // come within tol·‖y‖²/10 of the optimum, the returned point must be within tol·‖y‖² of it — measured on the
+    // objective itself, not on the reported gap (so ridge / unpenalised fits, whose reported gap is P(w), and
+    // fits that silently used up their budget are judged too)
+    let pstar = objective(&c.x, &y, &cands[0], b, l1, l2).min(p0);
+    if s > 0.0 {
+        if let Some(k) = ref_sweeps_enet(&c.x, &yc, l1, l2, pstar, 0.1 * c.tol * s, (c.max / 10).min(2000)) {
+            if c.max >= 10 * k + 10 {
+                em_counts.push(format!("{}:budget_judged:{}", kind, if c.l1r * c.pen == 0.0 { "l1=0" } else { "l1>0" }));
+                ctx.require(p0 - pstar <= c.tol * s * (1.0 + 1e-6) + 1e-12 * p0.abs(), "suboptimality_within_tolerance", &class, || {
+                    format!("P(w)-P*={} > tol*|y|^2={} after {} of {} sweeps although an independent descent is within tol*|y|^2/10 after {} sweeps; w={:?} w*={:?}", p0 - pstar, c.tol * s, steps, c.max, k, w, cands[0])
+                });
+            }
+        }
+    }
     // (4) jointly in the intercept
     if c.icpt {
         let bstar = (0..n).map(|i| y[i] - xw[i]).sum::<f64>() / nf;
@@ -220,7 +268,17 @@ pub(crate) fn oracle_enet(ctx: &mut Ctx, em_counts: &mut Vec<String>, c: &EnetCa
         // un-centred features is a different defect and gets its own class
         let ymean = y.iter().sum::<f64>() / nf;
         let ysc = y.iter().map(|v| v.abs()).fold(0.0, f64::max);
-        let class4 = if cen == "uncentred" { format!("{}:b={}", class, if (b - ymean).abs() <= 1e3 * c.rel * 1e-3 * (ysc + 1e-300) { "ymean" } else { "other" }) } else { class.clone() };
+        // ... and the listed finding explains exactly one amount: the distance between the best point WITH the
+        // intercept held at the target mean (`pstar`, the reference optimum for the returned b) and the joint
+        // optimum.  A pair (w, b = ȳ) that is worse than that by more than the reported gap is something else
+        // (class `…:b=ymean:excess`, not listed)
+        let is_mean = (b - ymean).abs() <= 1e3 * c.rel * 1e-3 * (ysc + 1e-300);
+        let explained = (pstar - pj).max(0.0);
+        let excess = worst > explained + gap.max(0.0) + slack + 1e-9 * p0.abs();
+        let class4 = if cen == "uncentred" { format!("{}:b={}", class, if !is_mean { "other" } else if excess { "ymean:excess" } else { "ymean" }) } else { class.clone() };
+        if cen != "uncentred" {
+            em_counts.push(format!("{}:joint_judged_unmasked", kind));
+        }
         ctx.require(worst <= gap.max(0.0) + slack + 1e-12 * p0.abs(), "intercept_jointly_optimal", &class4, || {
             format!("objective can be lowered by {} (intercept alone: {}) but gap={}; b={} best b for w={} joint optimum b={} w={:?} vs w={:?}", worst, loss_b, gap, b, bstar, bj, wj, w)
         });
@@ -758,6 +816,42 @@ pub(crate) fn ref_mtl(x: &Array2<f64>, y: &Array2<f64>, l1: f64, l2: f64, icpt: 
     (w, b)
 }
 
+/// multi-task counterpart of `ref_sweeps_enet` (objective of the problem without intercept on `y`)
+fn ref_sweeps_mtl(x: &Array2<f64>, y: &Array2<f64>, l1: f64, l2: f64, pstar: f64, target: f64, cap: u32) -> Option<u32> {
+    let (n, p) = x.dim();
+    let t = y.ncols();
+    let cols: Vec<Vec<f64>> = (0..p).map(|j| col(x, j)).collect();
+    let nrm: Vec<f64> = cols.iter().map(|c| dot(c, c)).collect();
+    let mut r: Vec<Vec<f64>> = (0..t).map(|k| (0..n).map(|i| y[[i, k]]).collect()).collect();
+    let mut w = Array2::<f64>::zeros((p, t));
+    for it in 1..=cap {
+        for j in 0..p {
+            if nrm[j] == 0.0 {
+                continue;
+            }
+            let tmp: Vec<f64> = (0..t).map(|k| dot(&cols[j], &r[k]) + nrm[j] * w[[j, k]]).collect();
+            let nt = dot(&tmp, &tmp).sqrt();
+            for k in 0..t {
+                let new = if nt <= l1 { 0.0 } else { tmp[k] * (1.0 - l1 / nt) / (nrm[j] + l2) };
+                let old = w[[j, k]];
+                if new != old {
+                    for i in 0..n {
+                        r[k][i] -= (new - old) * cols[j][i];
+                    }
+                    w[[j, k]] = new;
+                }
+            }
+        }
+        let sq: f64 = r.iter().map(|c| dot(c, c)).sum();
+        let l21: f64 = (0..p).map(|j| (0..t).map(|k| w[[j, k]] * w[[j, k]]).sum::<f64>().sqrt()).sum();
+        let pk = 0.5 * sq + l1 * l21 + 0.5 * l2 * w.iter().map(|v| v * v).sum::<f64>();
+        if pk - pstar <= target {
+            return Some(it);
+        }
+    }
+    None
+}
+
 pub(crate) struct MtlCase {
     pub x: Array2<f64>,
     pub y: Array2<f64>,
@@ -846,6 +940,18 @@ pub(crate) fn oracle_mtl(ctx: &mut Ctx, counts: &mut Vec<String>, c: &MtlCase, w
             break;
         }
     }
+    // "up to the stated tolerance, for budgets large enough to converge" — as in the single-task oracle
+    let pstar = pr.min(p0);
+    if s > 0.0 {
+        if let Some(k) = ref_sweeps_mtl(x, &yc, l1, l2, pstar, 0.1 * c.tol * s, (c.max / 10).min(2000)) {
+            if c.max >= 10 * k + 10 {
+                counts.push(format!("mtl:budget_judged:{}", if l1 == 0.0 { "l1=0" } else { "l1>0" }));
+                ctx.require(p0 - pstar <= c.tol * s * (1.0 + 1e-6) + 1e-12 * p0.abs(), "suboptimality_within_tolerance", &class, || {
+                    format!("P(W)-P*={} > tol*|Y|^2={} after {} of {} sweeps although an independent descent is within tol*|Y|^2/10 after {} sweeps; W={:?} W*={:?}", p0 - pstar, c.tol * s, steps, c.max, k, w, wr)
+                });
+            }
+        }
+    }
     if c.icpt {
         let xw = x.dot(w);
         let mut loss = 0.0;
@@ -860,7 +966,12 @@ pub(crate) fn oracle_mtl(ctx: &mut Ctx, counts: &mut Vec<String>, c: &MtlCase, w
         let (wj, bj) = ref_mtl(x, y, l1, l2, true);
         let pj = objective_mtl(x, y, &wj, &bj, l1, l2);
         let worst = loss.max(p0 - pj);
-        let class4 = if cen == "uncentred" { format!("{}:b={}", class, if is_mean { "ymean" } else { "other" }) } else { class.clone() };
+        let explained = (pstar - pj).max(0.0);
+        let excess = worst > explained + bound + 1e-9 * p0.abs();
+        let class4 = if cen == "uncentred" { format!("{}:b={}", class, if !is_mean { "other" } else if excess { "ymean:excess" } else { "ymean" }) } else { class.clone() };
+        if cen != "uncentred" {
+            counts.push("mtl:joint_judged_unmasked".to_string());
+        }
         ctx.require(worst <= bound, "intercept_jointly_optimal", &class4, || format!("the objective can be lowered by {} (intercepts alone: {}) but gap={}; b={:?} joint optimum b={:?}", worst, loss, gap, b, bj));
     }
     // feature rows under the group threshold are exactly zero
